@@ -15,7 +15,7 @@
   Not modelled: allocation failure (`nni_lmq_resize` ENOMEM, `nni_msg_unique` NULL).
 -/
 import NngModel.Proto.Base
-import NngModel.Generated.Consts
+import NngModel.Generated.C09
 namespace Nng.Bus
 open Nng Nng.Proto
 
